@@ -3,6 +3,7 @@ package simhttp
 import (
 	"bufio"
 	"bytes"
+	"context"
 	"fmt"
 	"io"
 	"net/http"
@@ -34,6 +35,8 @@ type Bridge struct {
 	ServerRequests []*http.Request
 	Wire           [][]byte
 	Exchanges      int
+	// ServerCtxDone: the server-side request context is already cancelled when the handler is called
+	ServerCtxDone bool
 	// HandlerPanics: panics that came out of the handler (each aborted its exchange)
 	HandlerPanics []string
 }
@@ -109,6 +112,12 @@ func (b *Bridge) RoundTrip(req *http.Request) (*http.Response, error) {
 		return nil, fmt.Errorf("bridge: server cannot parse the request: %w", err)
 	}
 	sreq = sreq.WithContext(req.Context())
+	if b.ServerCtxDone {
+		// the client went away right after sending: the server-side request context is already cancelled when serving starts
+		cctx, cancel := context.WithCancel(req.Context())
+		cancel()
+		sreq = sreq.WithContext(cctx)
+	}
 	body, err := io.ReadAll(sreq.Body)
 	if err != nil {
 		return nil, fmt.Errorf("bridge: server cannot read the request body framing: %w", err)
